@@ -1,4 +1,5 @@
 import D2V.Drv.Common
+import D2V.Drv.LayCommon
 import D2V.Model.Nest
 open Lean D2V.Drv D2V.Nest
 
@@ -116,4 +117,4 @@ def handleC18 (j : Json) : Except String Verdict := do
   | "nest" => handleNest j
   | k => throw s!"unknown kind {k}"
 
-def main : IO Unit := runDriver handleC18
+def main : IO Unit := D2V.Drv.Lay.runSanitized handleC18
